@@ -216,6 +216,76 @@ def check_built(spec, ha, hb):
     return out
 
 
+def default_quantity_cases():
+    """Aggregators built WITHOUT a quantity argument (the library's default: the datum itself), in every position where
+    a node writes its own name: root, collection member, Select cut, flow slot."""
+    import histogrammar as hg
+
+    leaves = {"Sum": hg.Sum, "Average": hg.Average, "Deviate": hg.Deviate, "Minimize": hg.Minimize, "Maximize": hg.Maximize}
+    out = {}
+    for nm, L in leaves.items():
+        out[nm + "()"] = lambda L=L: L()
+        out["Label(a=%s(), b=%s())" % (nm, nm)] = lambda L=L: hg.Label(a=L(), b=L())
+        out["Branch(Count(), %s())" % nm] = lambda L=L: hg.Branch(hg.Count(), L())
+        out["Select(cut=%s())" % nm] = lambda L=L: hg.Select(lambda d: d > 0, L())
+        out["Bin(.., nanflow=%s())" % nm] = lambda L=L: hg.Bin(2, 0.0, 2.0, lambda d: d, hg.Count(), hg.Count(), hg.Count(), L())
+        out["Bin(2,0,2, value=%s())" % nm] = lambda L=L: hg.Bin(2, 0.0, 2.0, value=L())
+    out["Bin(2,0,2)"] = lambda: hg.Bin(2, 0.0, 2.0)
+    out["SparselyBin(1.0)"] = lambda: hg.SparselyBin(1.0)
+    out["CentrallyBin([0,1,3])"] = lambda: hg.CentrallyBin([0.0, 1.0, 3.0])
+    out["IrregularlyBin([0,1])"] = lambda: hg.IrregularlyBin([0.0, 1.0])
+    out["Stack([0,1])"] = lambda: hg.Stack([0.0, 1.0])
+    out["Bag(range='N')"] = lambda: hg.Bag(range="N")
+    return out
+
+
+def check_default_quantity(name, data):
+    args = {"case": name, "data": [A.show(x) for x in data]}
+    out = []
+    try:
+        mk_ = default_quantity_cases()[name]
+        h = mk_()
+        for x in data:
+            h.fill(x)
+        d0 = h.toJson()
+        c = pickle.loads(pickle.dumps(h))
+        if not (c == h) or not (h == c) or (c != h):
+            out.append(FW.violation(PROP, "defaults", "clone of %s != original" % name, "not-equal", args, {}))
+        d = C.diff(c.toJson(), d0, tol_keys=())
+        if d:
+            out.append(core.v_diff(PROP, "defaults", "clone of an aggregator with the default quantity serialises differently", d,
+                                   c.toJson(), args))
+        for x in (1.5, float("nan"), -0.5):
+            h.fill(x)
+            c.fill(x)
+        d = C.diff(c.toJson(), h.toJson(), tol_keys=())
+        if d:
+            out.append(core.v_diff(PROP, "defaults", "clone and original diverge under identical fills (default quantity)", d,
+                                   c.toJson(), args))
+        for nm, f in (("zero()", lambda o: o.zero()), ("copy()", lambda o: o.copy()), ("o+o", lambda o: o + o)):
+            d = C.diff(f(c).toJson(), f(h).toJson(), tol_keys=())
+            if d:
+                out.append(core.v_diff(PROP, "defaults", "%s of clone and of original differ (default quantity)" % nm, d,
+                                       f(c).toJson(), args))
+    except Exception as e:
+        out.append(core.v_exc(PROP, "defaults", "raised", e, args))
+    return out
+
+
+def _defaults(task):
+    acc = FW.Acc()
+    for name in default_quantity_cases():
+        for data in ([], [0.5], [0.5, 1.5, float("nan")], [-1.0, 3.0]):
+            acc.add(check_default_quantity(name, data))
+            acc.n("default_quantity_cases")
+            acc.n("clones_checked")
+    return acc.freeze_sets()
+
+
+def _dispatch(task):
+    return _defaults(task) if task[0] == "defaults" else _tree(task)
+
+
 def make_menu(spec, tier):
     recs = A.records(spec, "core", cap=4)
     events = [(r, 1.0) for r in recs] + [(recs[0], 0.5)]
@@ -306,7 +376,7 @@ def trees(tier):
 
 def run(tier, seed):
     ts = trees(tier)
-    accs = FW.pmap(_tree, [(t, tier) for t in ts], seed)
+    accs = FW.pmap(_dispatch, [(t, tier) for t in ts] + [("defaults", tier)], seed)
     acc = FW.Acc()
     for a in accs:
         acc.merge(a)
@@ -333,6 +403,8 @@ def run(tier, seed):
 
 def replay(driver, args):
     spec = args["spec"]
+    if driver == "defaults":
+        return check_default_quantity(args["case"], [A.unshow(x) for x in args["data"]])
     if driver == "built":
         return check_built(spec, core.unshow_evs(args["ha"]), core.unshow_evs(args["hb"]))
     menu = menu_from_args(args["menu"])
